@@ -189,20 +189,38 @@ theorem safe_iter {s : State} {t : Tid} (ht : t = .app ∨ t = .lis) {p : Proc} 
       | (simp at hs; crack_hyps
          all_goals safe_ctac h hl))
 
+theorem safe_body_app {s : State} {p : Proc} {k c : Nat}
+    {l : Lbl} {s' : State} (hl : Life s) (h : Safe s) (hpc : getC s Tid.app = .body p k c)
+    (hs : (l, s') ∈ bodySucc s Tid.app p k c) : Safe s' := by
+  unfold bodySucc at hs
+  simp only [getC] at hpc
+  split at hs
+  all_goals (try simp only [] at hs)
+  all_goals (repeat' (split at hs))
+  all_goals first
+    | (simp at hs; done)
+    | (simp at hs; crack_hyps
+       all_goals safe_ctac h hl)
+
+theorem safe_body_lis {s : State} {p : Proc} {k c : Nat}
+    {l : Lbl} {s' : State} (hl : Life s) (h : Safe s) (hpc : getC s Tid.lis = .body p k c)
+    (hs : (l, s') ∈ bodySucc s Tid.lis p k c) : Safe s' := by
+  unfold bodySucc at hs
+  simp only [getC] at hpc
+  split at hs
+  all_goals (try simp only [] at hs)
+  all_goals (repeat' (split at hs))
+  all_goals first
+    | (simp at hs; done)
+    | (simp at hs; crack_hyps
+       all_goals safe_ctac h hl)
+
 theorem safe_body {s : State} {t : Tid} (ht : t = .app ∨ t = .lis) {p : Proc} {k c : Nat}
     {l : Lbl} {s' : State} (hl : Life s) (h : Safe s) (hpc : getC s t = .body p k c)
     (hs : (l, s') ∈ bodySucc s t p k c) : Safe s' := by
-  unfold bodySucc at hs
   rcases ht with rfl | rfl
-  all_goals (
-    simp only [getC] at hpc
-    split at hs
-    all_goals (try simp only [] at hs)
-    all_goals (repeat' (split at hs))
-    all_goals first
-      | (simp at hs; done)
-      | (simp at hs; crack_hyps
-         all_goals safe_ctac h hl))
+  · exact safe_body_app hl h hpc hs
+  · exact safe_body_lis hl h hpc hs
 
 theorem safe_close {s : State} {t : Tid} (ht : t = .app ∨ t = .lis) {p : Proc} {k : KSt} {c : Nat}
     {l : Lbl} {s' : State} (hl : Life s) (h : Safe s) (hpc : getC s t = .close p k c)
@@ -248,21 +266,41 @@ theorem safe_cr {s : State} {t : Tid} (ht : t = .app ∨ t = .lis) {st : CrSt} {
       | (simp at hs; crack_hyps
          all_goals safe_ctac h hl))
 
+theorem safe_gone_c_app {s : State} {g : GSt} {c : Nat}
+    {l : Lbl} {s' : State} (hl : Life s) (h : Safe s) (hpc : getC s Tid.app = .gone g c)
+    (hs : (l, s') ∈ goneSucc s Tid.app g c (fun s1 g1 => setC s1 Tid.app (.gone g1 c)) (fun s1 => setC s1 Tid.app (finished Tid.app))) :
+    Safe s' := by
+  unfold goneSucc at hs
+  simp only [getC] at hpc
+  split at hs
+  all_goals (try simp only [] at hs)
+  all_goals (repeat' (split at hs))
+  all_goals first
+    | (simp at hs; done)
+    | (simp at hs; crack_hyps
+       all_goals safe_ctac h hl)
+
+theorem safe_gone_c_lis {s : State} {g : GSt} {c : Nat}
+    {l : Lbl} {s' : State} (hl : Life s) (h : Safe s) (hpc : getC s Tid.lis = .gone g c)
+    (hs : (l, s') ∈ goneSucc s Tid.lis g c (fun s1 g1 => setC s1 Tid.lis (.gone g1 c)) (fun s1 => setC s1 Tid.lis (finished Tid.lis))) :
+    Safe s' := by
+  unfold goneSucc at hs
+  simp only [getC] at hpc
+  split at hs
+  all_goals (try simp only [] at hs)
+  all_goals (repeat' (split at hs))
+  all_goals first
+    | (simp at hs; done)
+    | (simp at hs; crack_hyps
+       all_goals safe_ctac h hl)
+
 theorem safe_gone_c {s : State} {t : Tid} (ht : t = .app ∨ t = .lis) {g : GSt} {c : Nat}
     {l : Lbl} {s' : State} (hl : Life s) (h : Safe s) (hpc : getC s t = .gone g c)
     (hs : (l, s') ∈ goneSucc s t g c (fun s1 g1 => setC s1 t (.gone g1 c)) (fun s1 => setC s1 t (finished t))) :
     Safe s' := by
-  unfold goneSucc at hs
   rcases ht with rfl | rfl
-  all_goals (
-    simp only [getC] at hpc
-    split at hs
-    all_goals (try simp only [] at hs)
-    all_goals (repeat' (split at hs))
-    all_goals first
-      | (simp at hs; done)
-      | (simp at hs; crack_hyps
-         all_goals safe_ctac h hl))
+  · exact safe_gone_c_app hl h hpc hs
+  · exact safe_gone_c_lis hl h hpc hs
 
 theorem safe_caller {s : State} {t : Tid} (ht : t = .app ∨ t = .lis) (hp : t = .lis → lisPc s.lpc = true)
     {l : Lbl} {s' : State} (hl : Life s) (h : Safe s) (hs : (l, s') ∈ callerSucc s t) : Safe s' := by
